@@ -205,9 +205,25 @@ func (c *Ctx) checkMultiKeyRoute() {
 			continue
 		}
 		sorted := false
-		for _, e := range t.Events {
+		for i, e := range t.Events {
 			if e.Kind == EvCall && e.Callee != nil && (strings.Contains(e.Callee.String(), "slices.Sort") || strings.Contains(e.Callee.String(), "sort.Slice") || strings.Contains(e.Callee.String(), "sort.Ints")) {
 				sorted = true
+				// the sort orders shards, not keys: an unstable sort over one element per key loses the caller's order
+				// of the keys that share a shard, which the unsharded locker keeps
+				if len(e.Args) >= 1 && !strings.Contains(e.Callee.String(), "Stable") {
+					if st := sortedElemStruct(e.Args[0].strip()); st != nil {
+						perShard := false
+						for fi := 0; fi < st.NumFields(); fi++ {
+							if _, isSl := st.Field(fi).Type().Underlying().(*types.Slice); isSl {
+								perShard = true
+							}
+						}
+						if !perShard && ok {
+							ok = false
+							c.violated("C17.multi-key-route", cons, e.Pos, "an unstable sort orders individual keys by their shard index: the keys of one shard are locked in an arbitrary order instead of the caller's list order, so two callers with consistently ordered lists can deadlock where the unsharded locker cannot", c.witness(t, i)...)
+						}
+					}
+				}
 			}
 		}
 		if !sorted {
